@@ -67,16 +67,22 @@ class Engine:
         short = cls.split(".")[-1]
         if short in BUILTIN_EXC_BASES:
             return BUILTIN_EXC_BASES[short]
-        return None
+        if cls in ("BaseException", "object"):
+            return None
+        return "Exception"
 
     def note_keys_term(self, path, t, op, keys, kt):
         # definitional facts about insertion-ordered key sequences, instantiated at creation
-        has_in = z3.Contains(keys, z3.Unit(kt))
+        # membership in a key sequence is the uninterpreted predicate key_in (z3's seq.contains makes the
+        # path conditions intractable); the dict well-formedness instance has[k] == key_in(keys, k) links it
+        kin = self.uf("key_in", KEYSEQ, KEY, B)
+        has_in = kin(keys, kt)
         if op == "add":
             path.assume(t == z3.If(has_in, keys, z3.Concat(keys, z3.Unit(kt))))
+            path.assume(kin(t, kt))
         else:
             # removal keeps the relative order of the others; we only state what is needed
-            path.assume(z3.Not(z3.Contains(t, z3.Unit(kt))))
+            path.assume(z3.Not(kin(t, kt)))
             path.assume(z3.Implies(z3.Not(has_in), t == keys))
             path.assume(z3.Length(t) == z3.If(has_in, z3.Length(keys) - 1, z3.Length(keys)))
 
@@ -192,6 +198,11 @@ class Engine:
             return VBox(path.fresh(name, PV))
         if typ == "list" or typ.startswith("list["):
             return path.alloc(HList(seq=path.fresh(name, PVSEQ)))
+        if typ.startswith("dict{"):
+            dom = [x.strip() for x in typ[5:-1].split(",")]
+            ref = self.make_symbolic(path, name, "dict")
+            path.heap[ref.rid].tag["key_domain"] = dom
+            return ref
         if typ == "dict":
             return path.alloc(HDict(sym=(path.fresh(name + "_keys", KEYSEQ), path.fresh(name + "_has", z3.ArraySort(KEY, B)),
                                          path.fresh(name + "_map", z3.ArraySort(KEY, PV)))))
@@ -284,6 +295,7 @@ class Engine:
             env[g] = self.make_symbolic(p, g, gt)
         if c.setup:
             c.setup(p, env)
+        self.install_fs_hooks(p, c)
         for r in c.requires:
             props, lab, expr = p._clause(r, p.func_stack[-1])
             p.assume(p.eval_contract_expr(expr))
@@ -303,6 +315,7 @@ class Engine:
             outcome, val = "raise", pr.exc
         except (CtlBreak, CtlContinue):
             raise Unsupported("break/continue outside loop")
+        env = p.frames[0]
         if outcome == "return":
             env["result"] = val
             if info.is_generator:
@@ -330,6 +343,35 @@ class Engine:
                 if spec.get("allowed_when") is not None:
                     p.oblige(f"{cls.split('.')[-1]}:allowed", "post-on-raise",
                              p.eval_contract_expr(spec["allowed_when"]), spec.get("props", c.raises_props))
+
+    def install_fs_hooks(self, p, c):
+        ex = c.extra
+        if ex.get("fs_faults"):
+            p.ghost["fs_faults"] = True
+        inv = ex.get("crash_invariant")
+        frame = c.fs_modifies
+        if inv:
+            def crash_hook(path, label, inv=inv, c=c):
+                for cl in inv:
+                    props, lab, expr = path._clause(cl, path.func_stack[0])
+                    path.oblige(f"{lab}@{label}#{len(path.events)}", "crash-invariant", path.eval_contract_expr_top(expr), props,
+                                note=f"line {getattr(path, 'cur_line', '?')}")
+            p.ghost["crash_hook"] = crash_hook
+        if inv or frame is not None:
+            def effect_hook(path, ev, inv=inv, frame=frame, c=c):
+                if frame is not None:
+                    saved = path.frames[0].get("_path")
+                    path.frames[0]["_path"] = VStr(ev["path"])
+                    goals = [path.eval_contract_expr_top(e) for e in frame]
+                    path.oblige(f"{ev['kind']}#{ev['n']}", "fs-frame", z3.Or(goals + [z3.BoolVal(False)]),
+                                c.extra.get("fs_props", c.props), note=f"line {ev['line']}")
+                    if saved is None:
+                        path.frames[0].pop("_path", None)
+                    else:
+                        path.frames[0]["_path"] = saved
+                if inv:
+                    p.ghost["crash_hook"](path, f"after-{ev['kind']}")
+            p.ghost["effect_hook"] = effect_hook
 
     # -- discharging ----------------------------------------------------------------------------------
     def discharge(self, ob, use_cvc5=True):
